@@ -636,16 +636,26 @@ func (p *Prog) LockField(pkg, typ, field string) *types.Var {
 	if !ok {
 		return nil
 	}
+	isSync := func(fl *types.Var) bool {
+		nt, ok := fl.Type().(*types.Named)
+		return ok && nt.Obj().Pkg() != nil && nt.Obj().Pkg().Path() == "sync" && (nt.Obj().Name() == "Mutex" || nt.Obj().Name() == "RWMutex")
+	}
+	var syncFields []*types.Var
 	for i := 0; i < st.NumFields(); i++ {
 		fl := st.Field(i)
 		if field != "" && fl.Name() == field {
 			return fl
 		}
-		if field == "" && fl.Embedded() {
-			if nt, ok := fl.Type().(*types.Named); ok && nt.Obj().Pkg() != nil && nt.Obj().Pkg().Path() == "sync" {
-				return fl
-			}
+		if field == "" && fl.Embedded() && isSync(fl) {
+			return fl
 		}
+		if isSync(fl) {
+			syncFields = append(syncFields, fl)
+		}
+	}
+	// the struct's one mutex under another spelling: embedded <-> named field, or renamed
+	if len(syncFields) == 1 {
+		return syncFields[0]
 	}
 	return nil
 }
